@@ -19,6 +19,8 @@ import (
 	"strings"
 	"sync"
 	"time"
+
+	"github.com/mlange-42/arche/ecs"
 )
 
 func main() {
@@ -37,6 +39,8 @@ func main() {
 		masksMain(os.Args[2:])
 	case "par":
 		parMain(os.Args[2:])
+	case "genwrap":
+		genwrapMain()
 	default:
 		fmt.Fprintln(os.Stderr, "unknown mode", os.Args[1])
 		os.Exit(2)
@@ -227,4 +231,22 @@ func parMain(args []string) {
 		}(name)
 	}
 	wg.Wait()
+}
+
+// genwrap: the honest replay of known finding K1 (about two minutes): 2^32 create/remove
+// cycles on one id wrap the uint32 generation, after which the very first handle is
+// reported alive again and is re-issued.
+func genwrapMain() {
+	w := ecs.NewWorld()
+	first := w.NewEntity()
+	w.RemoveEntity(first)
+	for i := uint64(0); i < (1<<32)-1; i++ {
+		e := w.NewEntity()
+		if e == first {
+			fmt.Printf("K1 reproduced after %d cycles: handle %v re-issued, Alive(first)=%v\n", i+1, e, w.Alive(first))
+			return
+		}
+		w.RemoveEntity(e)
+	}
+	fmt.Printf("K1 not reproduced: Alive(first)=%v\n", w.Alive(first))
 }
